@@ -76,7 +76,7 @@ func TestC12_DiffPowermaps(t *testing.T) {
 			func() {
 				defer func() {
 					if r := recover(); r != nil {
-						p := rec.SaveReplay(fmt.Sprintf("diff-%d-%d", a, b), map[string]int{"old": a, "new": b})
+						p := rec.SaveReplay(t.Name(), fmt.Sprintf("diff-%d-%d", a, b), map[string]int{"old": a, "new": b})
 						rec.Violation("diffpowermaps-panic", fmt.Sprint(r), p)
 					}
 				}()
@@ -111,7 +111,7 @@ func TestC12_DiffPowermaps(t *testing.T) {
 				bad = "fold(old, diff) != new"
 			}
 			if bad != "" {
-				p := rec.SaveReplay(fmt.Sprintf("diff-%d-%d", a, b), map[string]int{"old": a, "new": b})
+				p := rec.SaveReplay(t.Name(), fmt.Sprintf("diff-%d-%d", a, b), map[string]int{"old": a, "new": b})
 				rec.Violation("diffpowermaps", fmt.Sprintf("%s for old=%v new=%v updates=%v", bad, oldpm, newpm, ups), p)
 				t.Errorf("VERIF-FAIL signature=diffpowermaps :: %s", bad)
 				return
